@@ -546,3 +546,33 @@ Fixpoint ext_safe (fx : fixes) (c : xctx) (m : ms) : bool :=
           match l with [] => true | x :: r => dt x && ext_safe fx c x && go r end) xs
   | _ => true
   end.
+
+(* ------------------------------------------------------------------ executed opcodes (Proofs/ExtOps.v)
+   [ast_cms m]: over all paths through the encoded script, the keys counted by executed
+   CHECKMULTISIGs (consensus adds them to the opcode count). *)
+Fixpoint ast_cms (m : ms) : N :=
+  match m with
+  | MMulti _ ks | MSortedMulti _ ks => N.of_nat (length ks)
+  | MAlt x | MSwap x | MCheck x | MDupIf x | MVerify x | MNonZero x | MZeroNotEqual x => ast_cms x
+  | MAndV x y | MAndB x y | MOrB x y | MOrD x y | MOrC x y => ast_cms x + ast_cms y
+  | MOrI x y => N.max (ast_cms x) (ast_cms y)
+  | MAndOr a b c => ast_cms a + N.max (ast_cms c) (ast_cms b)
+  | MThresh _ xs => (fix go (l : list ms) : N := match l with [] => 0 | x :: r => ast_cms x + go r end) xs
+  | _ => 0
+  end.
+
+(* multi has at most 20 keys (MAX_PUBKEYS_PER_MULTISIG, enforced by the Threshold type) *)
+Fixpoint multi_small (m : ms) : bool :=
+  match m with
+  | MMulti _ ks | MSortedMulti _ ks => Nat.leb (length ks) 20
+  | MAlt x | MSwap x | MCheck x | MDupIf x | MVerify x | MNonZero x | MZeroNotEqual x => multi_small x
+  | MAndV x y | MAndB x y | MOrB x y | MOrD x y | MOrC x y | MOrI x y => multi_small x && multi_small y
+  | MAndOr a b c => multi_small a && multi_small b && multi_small c
+  | MThresh _ xs => (fix go (l : list ms) : bool := match l with [] => true | x :: r => multi_small x && go r end) xs
+  | _ => true
+  end.
+
+(* the class on which the all-paths bound is within the library's figure *)
+Definition ops_covered (fx : fixes) (c : xctx) (m : ms) : bool :=
+  match sat_data (ext_of_gen fx c m) with Some d => ast_cms m <=? sd_eops d | None => false end.
+
